@@ -121,13 +121,19 @@ def bool_shapes(labels, max_deg):
         # +-v (a - b c)  (eq AND form)
         shapes["and"] = st.tuples(st.permutations(labels), st.sampled_from([1, 2, 3, 4, -1, -2, -3])).map(
             lambda t: [[(t[0][0],), t[1]], [(t[0][1], t[0][2]), -t[1]]])
+        # four terms c*(+-z +-x +-y +-xy) over three labels: the neighbourhood of z = OR(x, y) = x + y - xy and of
+        # z = AND / XOR-like identities; only some sign patterns are gate identities
+        shapes["zxyxy"] = st.tuples(st.permutations(labels), st.sampled_from([1, 2, -1]),
+                                    st.lists(st.sampled_from([1, -1]), min_size=4, max_size=4)).map(
+            lambda t: [[(t[0][0],), t[1] * t[2][0]], [(t[0][1],), t[1] * t[2][1]], [(t[0][2],), t[1] * t[2][2]],
+                       [(t[0][1], t[0][2]), t[1] * t[2][3]]])
         # the look-alike of the AND form with equal signs: v (a + b c), which is NOT a = b c
         shapes["and_samesign"] = st.tuples(st.permutations(labels), st.sampled_from([1, 2, -1, -2])).map(
             lambda t: [[(t[0][0],), t[1]], [(t[0][1], t[0][2]), t[1]]])
     return shapes
 
 
-BOOL_WEIGHTS = {"generic": 5, "sum1": 2, "nonneg_negoff": 3, "or": 2, "xley": 2, "and": 2, "and_samesign": 1, "min0": 2,
+BOOL_WEIGHTS = {"generic": 5, "sum1": 2, "nonneg_negoff": 3, "or": 2, "xley": 2, "and": 2, "and_samesign": 1, "zxyxy": 2, "min0": 2,
                 "max0": 2, "indef": 3, "const": 2, "nonzero": 1}
 
 
@@ -196,7 +202,7 @@ def _aim(terms, rel):
     return [[k, -v] for k, v in terms] + [[(), 1]]     # gt: -P + 1 -> le
 
 
-BOOL_IN_SPIN_WEIGHTS = {"generic": 1, "sum1": 3, "nonneg_negoff": 3, "or": 3, "xley": 3, "and": 2, "and_samesign": 1, "min0": 1, "max0": 1,
+BOOL_IN_SPIN_WEIGHTS = {"generic": 1, "sum1": 3, "nonneg_negoff": 3, "or": 3, "xley": 3, "and": 2, "and_samesign": 1, "zxyxy": 1, "min0": 1, "max0": 1,
                         "indef": 1, "const": 1, "nonzero": 1}
 
 
